@@ -870,11 +870,13 @@ func genRaceWorkload(r *rand.Rand, id string) raceWorkload {
 	g.emptyVars = g.p(0.4)
 	// 2-5 features, `unknown` (which needs the names of the others) last
 	nf := 2 + r.Intn(4)
-	perm := r.Perm(len(raceFeatures))
+	last := len(raceFeatures) - 1
+	perm := r.Perm(last)
 	chosen := map[int]bool{}
 	for _, i := range perm[:nf] {
 		chosen[i] = true
 	}
+	chosen[last] = g.p(0.4)
 	for i, f := range raceFeatures {
 		if chosen[i] {
 			f.fn(g)
